@@ -1478,6 +1478,55 @@ def w18(rep):
     rep.floor("float writers of the text form", n, 1)
 
 
+def w19(rep):
+    """A library and its clients are compiled by different runs and meet through hash codes of export types; the codes fold in
+    a per-type-form `twist` taken from a table filled by a small pseudo-random generator.  The codes agree between runs only
+    because the generator is put back to its fixed seed each time the table is filled.  If the fill relies on the static
+    initial value of the seed instead, a table rebuilt later in the same run (a second file on the command line) continues the
+    sequence: the second unit's export codes differ from those any other run computes, and a client looking an export up in it
+    (or it in a library) fails with `Export not found`.  In gf_add.c every function that draws from gen0RtRand passes, on
+    every path from its entry to the first draw, a store of a constant into the generator's seed (directly or by calling a
+    function that does nothing else)."""
+    f = common.extract("gf_add.c", all_trees=True, all_cfg=True)
+    # the generator's state: the file-scope variable gen0RtRand updates
+    gen = f.func("gen0RtRand")
+    seeds = set()
+    for x in walk(gen["body"]):
+        if x["k"] in ("BinaryOperator", "CompoundAssignOperator") and x["op"].endswith("=") and x["op"] not in ("==", "!=", "<=", ">="):
+            l = strip(x["c"][0])
+            if l is not None and l["k"] == "DeclRefExpr" and l["n"] in f.vars:
+                seeds.add(l["n"])
+    if len(seeds) != 1:
+        raise AnalysisBroken("gen0RtRand: the generator's state variable was not found")
+    seed = seeds.pop()
+    resetters = set()
+    for name, fn in f.funcs.items():
+        if "body" in fn and name != "gen0RtRand":
+            ws = [x for x in walk(fn["body"]) if x["k"] == "BinaryOperator" and x["op"] == "=" and (strip(x["c"][0]) or {}).get("n") == seed]
+            if ws and all(const_value(x["c"][1]) is not None for x in ws):
+                resetters.add(name)
+    n = 0
+    for name, fn in sorted(f.funcs.items()):
+        if "body" not in fn or name == "gen0RtRand" or not fn.get("cfg") or not calls(fn["body"], "gen0RtRand"):
+            continue
+        n += 1
+        cfg = common.CFG(fn)
+        draws = lambda e: e["k"] == "CallExpr" and e.get("callee") == "gen0RtRand"
+        resets = lambda e: (e["k"] == "CallExpr" and e.get("callee") in resetters) or \
+            (e["k"] == "BinaryOperator" and e["op"] == "=" and (strip(e["c"][0]) or {}).get("n") == seed and const_value(e["c"][1]) is not None)
+        p = cfg.path_avoiding(cfg.entry, draws, resets)
+        key = "generator-reseeded-before-the-table-is-filled:%s" % name
+        if p is None:
+            rep.ok("W19", key, sample={"seed": seed, "resetters": sorted(resetters)})
+        else:
+            rep.violation("W19", key, "gf_add.c:%d (%s)" % (fn["l"], name),
+                          "%s draws from gen0RtRand without first putting `%s` back to its fixed value: the numbers depend on "
+                          "how many were drawn before in this run, so the type-hash twists of the second file of a command line "
+                          "differ from those of any other run and exports of that unit are not found by units compiled "
+                          "separately" % (name, seed), detail={"cfg_path": p[:10]})
+    rep.floor("functions drawing from the hash-twist generator", n, 1)
+
+
 def run(tier, only=None):
     rep = common.Report("C05", tier, EXPLANATION)
     f_foam = common.extract("foam.c", all_trees=True)
@@ -1506,6 +1555,7 @@ def run(tier, only=None):
     w16(rep, f_foam)
     w17(rep, f_foam)
     w18(rep)
+    w19(rep)
     from . import c19_float, immed
     immed.report(rep, "W14", units=["foam.c", "sexpr.c"], floor=2)      # integers of the text form (.fm) read back in full
     c19_float.sentinels(rep, "W13")
